@@ -468,6 +468,9 @@ type vc07Call struct {
 	History []vc07Entry `json:"history_newest_first"`
 	Expect  []vc07Entry `json:"expected"`
 	Got     vc07Obs     `json:"observed"`
+	// long-lived-reader runs (c07shared_test.go) only:
+	Preceded []string `json:"preceded_by_on_the_same_readers,omitempty"` // the calls issued just before this one, oldest first
+	Fresh    *vc07Obs `json:"observed_on_freshly_opened_readers,omitempty"`
 }
 
 type vc07Run struct {
@@ -477,6 +480,32 @@ type vc07Run struct {
 	multis map[string]*GsfaReaderMultiepoch
 	named  map[string]string
 	t      *testing.T
+	// long-lived-reader runs (c07shared_test.go): calls are labelled, remember what preceded them on the same readers,
+	// and a mismatch may be re-classified (same call on freshly opened readers). Unset in the single-address sweep.
+	kind       string
+	recent     []string
+	onMismatch func(c *vc07Call, sig string) string // returns the failure signature to report ("" = count only)
+}
+
+// remember keeps the last calls issued on the long-lived readers (for the replay record of a later failure)
+func (r *vc07Run) remember(key string) {
+	if r.kind == "" {
+		return
+	}
+	if len(r.recent) >= 12 {
+		r.recent = append(r.recent[:0], r.recent[1:]...)
+	}
+	r.recent = append(r.recent, key)
+}
+
+// failMismatch reports a result that is not the slice / window the property describes
+func (r *vc07Run) failMismatch(sig, detail string, c vc07Call) {
+	if r.onMismatch != nil {
+		if sig = r.onMismatch(&c, sig); sig == "" {
+			return
+		}
+	}
+	r.rep.Fail(sig, detail, c)
 }
 
 // epsTerm names the (address, readers) description once in the case file's preamble and returns the name
@@ -559,7 +588,8 @@ func (r *vc07Run) callSig(ai int, readers []int, limit int, before, until *int, 
 	if vc07Descending(readers) {
 		call := func() vc07Call {
 			c := r.describe(ai, readers)
-			c.Kind, c.Limit, c.Before, c.Until, c.Expect, c.Got = "sig", limit, before, until, exp, obs
+			c.Kind, c.Limit, c.Before, c.Until, c.Expect, c.Got = r.kind+"sig", limit, before, until, exp, obs
+			c.Preceded = append([]string(nil), r.recent...)
 			return c
 		}
 		if obs.Err != "" {
@@ -575,9 +605,10 @@ func (r *vc07Run) callSig(ai int, readers []int, limit int, before, until *int, 
 				r.rep.Fail("unexpected-error", "GetBeforeUntil failed: "+obs.Err, call())
 			}
 		} else if !vc07SameGrouped(exp, obs) {
-			r.rep.Fail("sig-slice-mismatch", fmt.Sprintf("result is not the slice of the history: expected %v, observed %v", exp, obs.flat()), call())
+			r.failMismatch("sig-slice-mismatch", fmt.Sprintf("result is not the slice of the history: expected %v, observed %v", exp, obs.flat()), call())
 		}
 	}
+	r.remember(key)
 	if toCoq {
 		r.cases.Add(fmt.Sprintf("CSig %s (%d)%%Z %s %s %s", r.epsTerm(ai, readers), limit, vc07CoqOptSig(before), vc07CoqOptSig(until), vc07CoqObs(obs)))
 	}
@@ -602,7 +633,8 @@ func (r *vc07Run) callSlot(ai int, readers []int, limit int, before, until uint6
 	if vc07Descending(readers) {
 		call := func() vc07Call {
 			c := r.describe(ai, readers)
-			c.Kind, c.Limit, c.BeforeS, c.UntilS, c.Expect, c.Got = "slot", limit, before, until, exp, obs
+			c.Kind, c.Limit, c.BeforeS, c.UntilS, c.Expect, c.Got = r.kind+"slot", limit, before, until, exp, obs
+			c.Preceded = append([]string(nil), r.recent...)
 			return c
 		}
 		if obs.Err != "" {
@@ -623,10 +655,11 @@ func (r *vc07Run) callSlot(ai int, readers []int, limit int, before, until uint6
 			case below > 0:
 				r.rep.Fail("slot-below-window", fmt.Sprintf("GetBeforeUntilSlot(before=%d, until=%d) returned %d transaction(s) with slot < until: %v", before, until, below, obs.flat()), call())
 			case !vc07SameGrouped(exp, obs):
-				r.rep.Fail("slot-window-mismatch", fmt.Sprintf("not the first %d entries of the window [%d,%d): expected %v, observed %v", limit, until, before, exp, obs.flat()), call())
+				r.failMismatch("slot-window-mismatch", fmt.Sprintf("not the first %d entries of the window [%d,%d): expected %v, observed %v", limit, until, before, exp, obs.flat()), call())
 			}
 		}
 	}
+	r.remember(key)
 	if toCoq {
 		r.cases.Add(fmt.Sprintf("CSlot %s (%d)%%Z %d%%N %d%%N %s", r.epsTerm(ai, readers), limit, before, until, vc07CoqObs(obs)))
 	}
